@@ -119,7 +119,9 @@ def run(chk):
         # model tie: static ID bytes, static IV bytes
         if "--static-id" in opts and static_id_hex.encode() not in ref.lower().replace(b"\n", b"") and bytes.fromhex(static_id_hex) not in ref:
             tie.append({"input": inp, "opts": opts, "difference": "static /ID bytes of the model not found in the output"})
-        if "--static-aes-iv" in opts and ("--use-aes=y" in opts or "--bits=256" in opts) and bytes.fromhex(static_iv_hex) not in ref:
+        if "--static-aes-iv" in opts and ("--use-aes=y" in opts or "--bits=256" in opts) \
+                and b"endstream" in ref and bytes.fromhex(static_iv_hex) not in ref:
+            # (an output without any stream has no place where the raw IV bytes must appear: strings may be re-spelt)
             tie.append({"input": inp, "opts": opts, "difference": "static AES IV bytes of the model not found in the output"})
     chk.count("perturbed-pairs", sum(4 if quick else len(perts) for _ in results), nontriv,
               samples=[{"input": os.path.basename(results[0][0][0]), "opts": results[0][0][1]}])
